@@ -18,7 +18,7 @@ RULES = {
     'R4': 'no state leaks from one directive to the next: locals read in an iteration before being written in it are only the cursors',
     'R5': 'the blackbox reserves header + max_line_length and every serialize call is given at most max_line_length (= C11.R3)',
 }
-FLOORS = {'R1': 12, 'R2': 20, 'R3': 20, 'R4': 2, 'R5': 3}
+FLOORS = {'R1': 12, 'R2': 20, 'R3': 20, 'R4': 2, 'R5': 12}
 
 
 def strl_summary(an, ev, st):
@@ -140,12 +140,16 @@ def run(ctx):
     # encoder
     e = prog.fn('qb_vsnprintf_serialize')
     sp, mp = e.params[0]['n'], e.params[1]['n']
-    an = EncAnalysis(prog, e, {sp: Lin.term(mp)}, summaries={'my_strlcpy': strl_summary, 'my_strlcat': strl_summary}).run()
+    # API contract: 1 <= max_len <= 2^31 - 1 (the encoder's cursor is a uint32_t and `location + 1 > max_len` is evaluated in
+    # 32-bit arithmetic, which is only meaningful then; every in-tree caller passes max_line_length in [4, 4096], checked by
+    # R5 and C13.R4)
+    CAP31 = Lin.term(mp) - Lin(2 ** 31 - 1)
+    an = EncAnalysis(prog, e, {sp: Lin.term(mp)}, init=[Lin(1) - Lin.term(mp), CAP31], summaries={'my_strlcpy': strl_summary, 'my_strlcat': strl_summary}).run()
     n = report(ctx, an, 'serialize', 'R1')
     if n < 10:
         raise AnalysisBroken('qb_vsnprintf_serialize: only %d store obligations' % n)
     # the value returned never exceeds max_len when max_len >= 1
-    an1 = EncAnalysis(prog, e, {sp: Lin.term(mp)}, init=[Lin(1) - Lin.term(mp)], summaries={'my_strlcpy': strl_summary, 'my_strlcat': strl_summary}).run()
+    an1 = EncAnalysis(prog, e, {sp: Lin.term(mp)}, init=[Lin(1) - Lin.term(mp), CAP31], summaries={'my_strlcpy': strl_summary, 'my_strlcat': strl_summary}).run()
     okr = bool(an1.returns) and all(v is not None and st.entails_le(v, Lin.term(mp)) for (_ev, st, v) in an1.returns)
     ctx.check('R1', 'serialize:returns<=max_len', okr, e, 'the encoder reports a length <= max_len (for max_len >= 1)',
               'the encoder can report more bytes than max_len: the blackbox commits a chunk longer than it reserved')
@@ -381,3 +385,10 @@ def r5(ctx):
         srcs, entry = value_sources(f, sz, al[0])
         ok = any(s.get('k') == 'bin' and s['op'] == '+' and (field_is(s['r'], 'max_line_length') or field_is(s['l'], 'max_line_length')) for s in srcs)
     ctx.check('R5', 'reservation=header+max_line_length', ok, al[0] if al else f, 'the reserved chunk is header + max_line_length', 'the reserved chunk size is not header + max_line_length')
+    # every copy into the reserved chunk and the committed length stay inside the reservation, fitting message or not (= C11.R3)
+    from rules import c11
+    sub = type(ctx)(prog, ctx.prop, ctx.tier, ctx.depth)
+    c11.r3(sub)
+    for r in sub.results:
+        r['rule'] = 'R5'
+        ctx.results.append(r)
